@@ -74,6 +74,7 @@ type Client struct {
 	QueryToken *S     `json:"query_token,omitempty"` // params writer: SetQueryParam("access_token", v)
 	FormToken  *S     `json:"form_token,omitempty"`  // params writer: SetFormParam("access_token", v)
 	FormOther  bool   `json:"form_other,omitempty"`  // params writer also sets the form field other=x
+	FormFile   bool   `json:"form_file,omitempty"`   // params writer also attaches a file part (multipart only)
 }
 
 // Server describes the authenticator that is consulted for the request.
@@ -181,6 +182,9 @@ func abstract(c *Client) *absReq {
 	}
 	if c.FormOther {
 		a.form["other"] = "x"
+	}
+	if c.FormFile && c.Media != "multipart" {
+		a.ambiguous = "file upload under a non-multipart media type (a client-body matter, C11)"
 	}
 	if len(a.form) > 0 {
 		switch c.Media {
